@@ -255,6 +255,12 @@ func isDefinite(o *Outcome, api string) bool {
 
 func (pr propC04) Run(w *World, st *Stats) *Violation {
 	ops := SpecMap(w.Cfg.Ops)
+	nilOps := false // a user operator that legitimately returns nil is configured
+	for _, o := range w.Cfg.Ops {
+		if o.Ret == TAny {
+			nilOps = true
+		}
+	}
 	wh := w.Hash()
 	st.World(wh)
 	full := &w.Calls[0]
@@ -485,7 +491,7 @@ func (pr propC04) Run(w *World, st *Stats) *Violation {
 					}
 				} else {
 					// Kleene undecided: DNE, or a value (more informative is allowed); never nil/default
-					if raw.Err == nil && raw.Val == nil {
+					if raw.Err == nil && raw.Val == nil && !nilOps {
 						return viol(ns(unavail), "nil-instead-of-dne", "TryEval returned (nil, nil) where it cannot decide (unavailable: %v)", unavail)
 					}
 					if o.Val == eval.DNE {
@@ -497,7 +503,7 @@ func (pr propC04) Run(w *World, st *Stats) *Violation {
 				return nil
 			}
 			// C04
-			if o.Val == nil && o.Err == nil && w.Extra["nil_bind"] != "1" {
+			if o.Val == nil && o.Err == nil && w.Extra["nil_bind"] != "1" && !nilOps {
 				return viol(ns(unavail), "nil-result", "TryEval returned (nil, nil) (unavailable: %v)", unavail)
 			}
 			return nil
